@@ -59,6 +59,7 @@ type rigTrafficOpts struct {
 	bigPayload bool
 	longRemote int  // extra in-order packets on remote stream 0
 	fbBias     bool // prefer congestion-control feedback as RTCP input
+	coincide   int  // per mille of operations that happen at the same instant as the previous one
 }
 
 // genRigTraffic fills in streams and a mixed workload (shared by the rig-based properties).
@@ -82,7 +83,9 @@ func genRigTraffic(r interface {
 	at := int64(500)
 	kinds := []string{"nack", "nack", "sr", "rr", "pli", "fir", "xr", "twcc", "ccfb", "compound", "remb"}
 	for i := 0; i < n; i++ {
-		at += int64(pick(rr, 50, 300, 1000, 4000))
+		if o.coincide == 0 || !chance(rr, o.coincide) {
+			at += int64(pick(rr, 50, 300, 1000, 4000))
+		}
 		maxLen := 1460
 		switch c := rr.Intn(100); {
 		case c < 45:
@@ -119,6 +122,11 @@ func genRigTraffic(r interface {
 				op.Err = true
 			}
 			ops = append(ops, op)
+			if o.coincide > 0 && chance(rr, 300) {
+				// another RTCP stream's reader gets feedback at the same instant
+				op.R, op.HS = op.R+1+rr.Intn(2), rr.Int63()
+				ops = append(ops, op)
+			}
 		}
 		if o.observers && chance(rr, 60) {
 			ops = append(ops, RigOp{K: pick(rr, "get", "get", "setrate", "aw"), AtUs: at, HS: rr.Int63()})
